@@ -1,7 +1,7 @@
 #!/usr/bin/env python3
 """False-alarm test: apply each property-preserving change under /verif/benign/<id>/ to /repo, run the quick check of its
 property and of the related properties, restore /repo. Every check must exit 0.   tools_benign.py [--only C01-1,...]"""
-import json, os, glob, subprocess, sys, re, argparse
+import json, os, glob, subprocess, sys, re, argparse, shutil
 V = os.path.dirname(os.path.abspath(__file__))
 REL = {'C04': ['C16', 'C08', 'C07'], 'C06': ['C08', 'C07', 'C01'], 'C07': ['C02', 'C19', 'C08', 'C17'], 'C08': ['C13', 'C12', 'C14', 'C07'], 'C15': ['C08', 'C07'], 'C17': ['C01', 'C02', 'C16', 'C08', 'C07'],
        'C18': ['C08', 'C07', 'C03'], 'C20': ['C08', 'C07', 'C09'], 'C01': ['C16', 'C17', 'C07', 'C08'], 'C02': ['C16', 'C17', 'C08', 'C07'], 'C03': ['C16', 'C17', 'C07', 'C08', 'C11'], 'C05': ['C16', 'C08', 'C07', 'C13'],
@@ -17,14 +17,14 @@ def main():
     ap = argparse.ArgumentParser()
     ap.add_argument('--only')
     a = ap.parse_args()
-    WT = '/tmp/verif_benign_wt'   # private worktree of /repo HEAD (regression use; does not block /repo)
+    WT = f'/tmp/verif_benign_wt_{os.getpid()}'   # private worktree of /repo HEAD (regression use; does not block /repo)
     sh(['git', '-C', '/repo', 'worktree', 'remove', '--force', WT])
     if sh(['git', '-C', '/repo', 'worktree', 'add', '--detach', WT, 'HEAD']).returncode != 0:
         print('cannot create worktree')
         return 2
     os.environ['VERIF_REPO'] = WT
-    os.environ['VERIF_EVIDENCE_DIR'] = '/tmp/verif_benign_evidence'
-    os.environ['VERIF_REPLAY_DIR'] = '/tmp/verif_benign_replays'
+    os.environ['VERIF_EVIDENCE_DIR'] = f'/tmp/verif_benign_evidence_{os.getpid()}'
+    os.environ['VERIF_REPLAY_DIR'] = f'/tmp/verif_benign_replays_{os.getpid()}'
     bad = 0
     for d in sorted(glob.glob(os.path.join(V, 'benign', '*'))):
         sid = os.path.basename(d)
@@ -54,6 +54,8 @@ def main():
         json.dump(m, open(os.path.join(d, 'meta.json'), 'w'), indent=1)
         print(sid, 'tests', res['tests'], {k: v['exit'] for k, v in res.items() if k != 'tests'}, flush=True)
     sh(['git', '-C', '/repo', 'worktree', 'remove', '--force', WT])
+    for k in ('VERIF_EVIDENCE_DIR', 'VERIF_REPLAY_DIR'):
+        shutil.rmtree(os.environ[k], ignore_errors=True)
     print('checks that alarmed:', bad)
     return 1 if bad else 0
 
